@@ -26,7 +26,7 @@ func RunC01(c *Ctx) {
 	var long rjson.Buffer
 	deep := deepDirtyBuffer()
 	c.Rec.Max("max_stack_len_of_buffer_previously_used_by_handler_traversals", int64(stackLen(deep)))
-	fams := []string{"W1", "W3", "W4", "W2", "W2T", "W5small"}
+	fams := []string{"W1", "W3", "W4", "W2", "W2T", "W1R", "W5small"}
 	c.RunDocs(fams, func(cs *h.Case) {
 		d := cs.Input
 		m := c.Parse(cs)
@@ -70,7 +70,7 @@ func RunC01(c *Ctx) {
 func RunC02(c *Ctx) {
 	var long rjson.Buffer
 	deep := deepDirtyBuffer()
-	fams := []string{"W1", "W1F", "W3", "W4", "W2", "W2T", "W5small"}
+	fams := []string{"W1", "W1F", "W3", "W4", "W2", "W2T", "W1R", "W5small"}
 	c.RunDocs(fams, func(cs *h.Case) {
 		d := cs.Input
 		m := c.Parse(cs)
@@ -112,7 +112,7 @@ func RunC02(c *Ctx) {
 func RunC11(c *Ctx) {
 	var long rjson.Buffer
 	deep := deepDirtyBuffer()
-	fams := []string{"W1", "W1F", "W3", "W4", "W2", "W2T", "W5small"}
+	fams := []string{"W1", "W1F", "W3", "W4", "W2", "W2T", "W1R", "W5small"}
 	c.RunDocs(fams, func(cs *h.Case) {
 		d := cs.Input
 		c.Guarded(cs, "SkipValueFast", func() {
